@@ -330,6 +330,15 @@ def _defs_of(fn_node: ast.AST, names):
             out.setdefault(a.targets[0].id, set()).add(norm_anon(a.value))
         if isinstance(a, ast.Assign) and isinstance(a.targets[0], ast.Attribute) and a.targets[0].attr == "fCO2":
             out.setdefault("<crop>.fCO2", set()).add(norm_anon(a.value))
+        # the case splits that select between these expressions: atoms of the tests that mention the crop's WP or the concentration
+        if isinstance(a, ast.If):
+            atoms = a.test.values if isinstance(a.test, ast.BoolOp) else [a.test]
+            for t in atoms:
+                txt = norm_anon(t)
+                if txt.startswith("(") and txt.endswith(")"):
+                    txt = txt[1:-1]
+                if "_.WP" in txt or ("CO2conc" in txt and not "constant_conc" in txt):
+                    out.setdefault("<case splits>", set()).add(txt)
     return out
 
 
@@ -343,7 +352,7 @@ def co2_factor_agreement(chk, prog, rule: str):
     da, db = _defs_of(a.node, CO2_NAMES), _defs_of(b.node, CO2_NAMES)
     chk.fn(a.key); chk.fn(b.key)
     n = 0
-    for nm in list(CO2_NAMES) + ["<crop>.fCO2"]:
+    for nm in list(CO2_NAMES) + ["<crop>.fCO2", "<case splits>"]:
         xa, xb = da.get(nm, set()), db.get(nm, set())
         if not xa or not xb:
             raise AnalysisError(f"CO2 factor: {nm} is no longer defined in both compute_variables and reset_initial_conditions")
